@@ -389,6 +389,23 @@ def fill_query_params(query, params):
                 # NULL has its own node class (the planner tests for it), as the parser builds for the literal
                 return ast.NullConstant(alias=node.alias, parentheses=node.parentheses)
             return ast.Constant(value, alias=node.alias, parentheses=node.parentheses)
+        if (
+            isinstance(node, ast.UnaryOperation) and node.op == '-' and len(node.args) == 1
+            and isinstance(node.args[0], (ast.Parameter, ast.UnaryOperation))
+            and not node.args[0].parentheses
+        ):
+            # `-?`: the parser reads a minus sign before a number as part of the literal (`-5` is Constant(-5)),
+            # so a number bound under a minus sign becomes one constant too
+            arg = params_replace(node.args[0])
+            if arg is None:
+                return None
+            if (
+                type(arg) is ast.Constant and isinstance(arg.value, (int, float))
+                and arg.alias is None and not arg.parentheses
+            ):
+                return ast.Constant(-arg.value, alias=node.alias, parentheses=node.parentheses)
+            node.args = [arg]
+            return node
 
     # put parameters into query
     query_traversal(query, params_replace)
